@@ -588,6 +588,7 @@ func c07Property(t *rapid.T) {
 			st = s.r.CheckResetTime(resetClock)
 			s.observe(st, ctx)
 			s.logf("reset time crossed (virtual clock %s)", resetClock.Format("15:04"))
+			afterReset := resetClock.Add(5 * time.Minute)
 			resetClock = time.Date(resetClock.Year(), resetClock.Month(), resetClock.Day()+1, 11, 0, 0, 0, time.UTC)
 			quietTicks = 0
 			sent := false
@@ -609,6 +610,8 @@ func c07Property(t *rapid.T) {
 				if s.r.V.IsConnected() && s.r.T() != 2 {
 					vk.Violation(t, c, "C07/negotiated-reset-counters", "after the reset-time negotiation the expected number is %d, want 2\n%s", s.r.T(), s.history())
 				}
+				// the reset happens once: the ticks that follow on the same day do nothing
+				quiet(afterReset, "tick a few minutes after the reset")
 			}
 		},
 	})
